@@ -417,7 +417,7 @@ def _dispatch(x):
     else:
         r = real_ins_worker(item)
     key = r["key"]
-    viol = [(f"{c}@real-run:{key}", f"{c}: {d} (config {item})", {"mode": kind, "cfg": item}) for c, d in r["errs"][:2]]
+    viol = [(f"{c}@real-run:{key}", f"{c}: {d} (config {item})", {"mode": kind, "cfg": item}) for c, d in runs.sweep_errs(item, r["errs"])[:2]]
     return dict(label=f"real:{key}", errs=viol, rejected=r.get("rejected_up_front"), n=r.get("populations", r.get("iterations", 0)), outcomes=0, populations=r.get("populations", 0), draws=r.get("pool_draws", 0))
 
 
@@ -431,8 +431,9 @@ def run(ctx):
         {"kind": "std", "model": "GW5", "seed": ctx.seed, "kwargs": {"flow_proposal_class": "gwflowproposal"}, "resume": "none"},
         {"kind": "std", "model": "G2ramp", "seed": ctx.seed, "kwargs": {"poolsize": 50, "drawsize": 7, "truncate_log_q": True}, "resume": "every"},
     ]
+    real += runs.option_sweep("std", ctx.seed)
     items += [("real", c) for c in real]
-    items += [("ins", c) for c in runs.ins_lattice(ctx.seed, True, resume_subsets=False)]
+    items += [("ins", c) for c in runs.ins_lattice(ctx.seed, True, resume_subsets=False) + runs.option_sweep("ins", ctx.seed)]
     labels = set()
     rejected = []
     for (kind, item), res in ctx.pmap(_dispatch, items):
@@ -446,7 +447,7 @@ def run(ctx):
             ctx.violation(*v)
     ctx.set("distinct_nontrivial", len(labels))
     ctx.set("rejected_up_front", rejected)
-    ctx.set("rule", "population lattice: latent prior x constant volume x accumulate_weights x truncate_log_q x reparameterisation x (poolsize, drawsize) x model (uniform / ramp prior), deviation-bounded (quick: <=1, thorough: <=2 departures from the default), radius options, augmented and clustering proposals, trained and untrained flows; each populated for every lattice value (k+1/2)/K of the acceptance variate. Real runs: the standard and INS lattices with the pool monitor and the likelihood-call guard. Radial samplers: dims {1,2,3,5} x r x fuzz on the variate lattice. Rejection/analytic proposals on three models. Distinct/non-trivial: distinct configurations")
+    ctx.set("rule", "population lattice: latent prior x constant volume x accumulate_weights x truncate_log_q x reparameterisation x (poolsize, drawsize) x model (uniform / ramp prior), deviation-bounded (quick: <=1, thorough: <=2 departures from the default), radius options, augmented and clustering proposals, trained and untrained flows; each populated for every lattice value (k+1/2)/K of the acceptance variate. Real runs: the standard and INS lattices and every valid single option value of the C20 option alphabet, with the pool monitor and the likelihood-call guard. Radial samplers: dims {1,2,3,5} x r x fuzz on the variate lattice. Rejection/analytic proposals on three models. Distinct/non-trivial: distinct configurations")
     ctx.set("bounds", dict(K=K))
     ctx.set("exhaustive", True)
     ctx.sample({"population_config": label_of(pop_lattice(True)[3]), "variates": f"(k+1/2)/{K} for k < {K}"})
